@@ -35,7 +35,9 @@ func (l *filterRuleList) addRule(fr *filterRule) error {
 func (l *filterRuleList) matches(name string) bool {
 	for _, fr := range l.Filters {
 		if fr.matches(name) {
-			return true
+			// The first matching rule decides: an include rule protects
+			// the name from later exclude rules.
+			return fr.flag&filtruleInclude == 0
 		}
 	}
 	return false
